@@ -467,7 +467,7 @@ def c_quad(q):
 
 COQ_FMT = {"nt": "NT", "nquads": "NQ", "turtle": "TTL", "trig": "TRIG", "xml": "XML", "trix": "TRIX",
            "json-ld": "JLD", "hext": "HEXT"}
-IDENTITY = ("trix", "json-ld", "hext")   # only used to describe / count cases, never by the check
+IDENTITY = ("json-ld", "hext")   # only used to describe / count cases, never by the check
 
 
 class C12(Suite):
